@@ -80,7 +80,7 @@ theorem pre_elem (F : FloatOps α) (mb : MbLen) : (v : Value α) → Savable F v
     simp [tbl]
   | .str s, hs => by
     intro fuel top isMap idx d rest size zs hd _
-    rw [save_str_append, pre_str mb fuel top isMap idx size zs d hd s rest hs.str_inv]
+    rw [save_str_append, pre_str mb fuel top isMap idx size zs d hd s rest]
     simp [tbl]
   | .obj, _ => by
     intro fuel top isMap idx d rest size zs hd _
@@ -190,7 +190,7 @@ theorem rd_item (F : FloatOps α) : (v : Value α) → Savable F v →
     refine ⟨.str s, ?_, by rw [erase]; exact Equiv.str s⟩
     rw [save_str_append]
     simpa [tbl] using Item.str (F := F) (fuel := fuel) (d := d) _ s rest more
-      (decodeStr_esc s (d :: rest) hs.str_inv)
+      (decodeStr_esc s (d :: rest))
   | .obj, _ => by
     intro fuel d rest more hd _
     refine ⟨.int 0, ?_, by rw [erase]; exact Equiv.int 0⟩
@@ -333,7 +333,7 @@ theorem restoreSvalue_save (F : FloatOps α) (mb : MbLen) (v : Value α) (hs : S
     simpa [save, erase] using restoreSvalue_numText F mb _ _ hn
   | str s =>
     refine ⟨.str s, ?_, by rw [erase]; exact Equiv.str s⟩
-    have h := decodeStr_esc s [] hs.str_inv
+    have h := decodeStr_esc s []
     simp [save, restoreSvalue, restoreString, h]
   | obj =>
     exact ⟨.int 0, by simp [save, restoreSvalue], by rw [erase]; exact Equiv.int 0⟩
@@ -369,33 +369,42 @@ theorem restoreSvalue_save (F : FloatOps α) (mb : MbLen) (v : Value α) (hs : S
       refine ⟨.map qs, ?_, by rw [erase]; exact Equiv.map _ _ he⟩
       simp [save, restoreSvalue, restoreContainer, hp, hqs, Pairs.len, Pairs.app]
 
-/-- Restoring the text that `save` wrote yields a value of the same shape: equal integers and strings, floats
-    with the same "%g" text, object references as 0. -/
-theorem roundtrip {α : Type} (F : FloatOps α) (mb : MbLen) (v : Value α) (hs : Savable F v) :
+/-- the round trip on the inductive form of the domain -/
+theorem roundtrip_ind (F : FloatOps α) (mb : MbLen) (v : Value α) (hs : Savable F v) :
     ∃ v', restoreVariable F mb (save F v) = RvOut.value v' ∧ Equiv F (erase v) v' := by
   obtain ⟨v', h, he⟩ := restoreSvalue_save F mb v hs
   refine ⟨v', ?_, he⟩
   unfold restoreVariable
   rw [cstr_eq_self _ (save_nz F v hs), h]
 
+/-- **Round trip.**  For every value of the domain `savable` (64-bit integers, strings without NUL, arrays of at
+    most MaxArraySize elements, mappings without float keys and with distinct integer / string / object keys; any
+    nesting) whose floats satisfy the float contract, restoring the text that `save` wrote yields a value of the
+    same shape: equal integers and strings, floats with the same saved text, object references as 0. -/
+theorem roundtrip {α : Type} (F : FloatOps α) (mb : MbLen) (v : Value α) (hs : savable v = true)
+    (hf : FloatsOK F v) :
+    ∃ v', restoreVariable F mb (save F v) = RvOut.value v' ∧ Equiv F (erase v) v' :=
+  roundtrip_ind F mb v (savable_bridge F v hs hf)
+
 /-! ## non-vacuity -/
+
+/-- a deeply nested value: string key with quote, CR, LF, backslash and a non-ASCII byte; class, arrays and
+    mappings inside each other; both 64-bit extremes; an object reference; a float; empty string and mapping -/
+def deepExample : Value Unit :=
+  .arr (.cons (.map (.cons (.str [34, 13, 10, 92, 255])
+      (.cls (.cons (.arr (.cons (.map (.cons (.int (-9223372036854775808))
+        (.arr (.cons .obj (.cons (.str []) .nil))) .nil)) .nil)) (.cons (.real ()) .nil)))
+      (.cons (.int 7) (.map .nil) .nil)))
+    (.cons (.int 9223372036854775807) .nil))
+
+/-- it is in the domain -/
+theorem deepExample_savable : savable deepExample = true := by decide
+
 
 /-- concrete float operations over `Unit`: every float prints as "1.5" -/
 def rtF : FloatOps Unit :=
   ⟨fun _ => [49, 46, 53], fun _ => (), fun _ _ => (), fun _ _ => (), fun _ _ => (), fun _ => (), fun _ => (),
-   fun _ _ => true⟩
-
-/-- a nested value with an escaped string, a mapping and an object reference satisfies the hypothesis -/
-example : Savable rtF
-    (.arr (.cons (.str [34, 10, 92]) (.cons (.map (.cons (.str [97]) .obj .nil)) (.cons (.int (-5)) .nil)))) := by
-  refine Savable.arr _ (SavableVals.cons _ _ (Savable.str _ ?_) (SavableVals.cons _ _
-    (Savable.map _ (SavablePairs.cons _ _ _ (Savable.str _ ?_) Savable.obj SavablePairs.nil) ?_ ?_)
-    (SavableVals.cons _ _ (Savable.int _ (by decide) (by decide)) SavableVals.nil))) ?_
-  · intro b hb; simp at hb; rcases hb with rfl | rfl | rfl <;> decide
-  · intro b hb; simp at hb; subst hb; decide
-  · intro k hk; simp [Pairs.keys] at hk; subst hk; rfl
-  · simp [Pairs.keys, keyTag]
-  · simp [Vals.length, maxArray, NV.Gen.C16.maxArraySize]
+   fun _ _ => true, fun _ => false, fun _ => false, fun _ => false⟩
 
 /-- the float contract `FloatOK` is satisfiable: the text "1.5" of `rtF` -/
 theorem rtF_floatOK : FloatOK rtF () := by
@@ -423,8 +432,12 @@ theorem rtF_floatOK : FloatOK rtF () := by
     · subst hd; rfl
     · subst hd; rfl
 
-example : Savable rtF (.cls (.cons (.real ()) (.cons .obj .nil))) :=
-  Savable.cls _ (SavableVals.cons _ _ (Savable.real _ rtF_floatOK)
-    (SavableVals.cons _ _ Savable.obj SavableVals.nil))
+theorem deepExample_floatsOK : FloatsOK rtF deepExample := by
+  simp only [deepExample, FloatsOK, FloatsOKVals, FloatsOKPairs, and_true, true_and]
+  exact rtF_floatOK
+
+example (mb : MbLen) : ∃ v', restoreVariable rtF mb (save rtF deepExample) = RvOut.value v' ∧
+    Equiv rtF (erase deepExample) v' :=
+  roundtrip rtF mb deepExample deepExample_savable deepExample_floatsOK
 
 end NV.C16
